@@ -91,11 +91,12 @@ pub fn run(ctx: &Ctx) -> Result<()> {
 		let mut tj = TileJSON::default(); let _ = tj.set_string("name", "c04 metadata ✓");
 		for s in &COMPS { for d in [None, Some(TileCompression::Uncompressed), Some(TileCompression::Gzip), Some(TileCompression::Brotli)] { for force in [false, true] { for c in containers {
 			if !ctx.thorough && rng.below(3) != 0 { continue; }
-			let format = if *c == "mbtiles" { TileFormat::PBF } else { TileFormat::BIN };
+			// raster, vector and opaque formats in turn (the conversion rules may not depend on the format)
+			let format = if *c == "mbtiles" { *rng.pick(&[TileFormat::PBF, TileFormat::PNG, TileFormat::JPG, TileFormat::WEBP]) } else { *rng.pick(&[TileFormat::BIN, TileFormat::PNG, TileFormat::PBF, TileFormat::JPG, TileFormat::WEBP, TileFormat::AVIF]) };
 			let stored: Vec<((u8, u32, u32), Vec<u8>)> = tiles.iter().map(|(k, v)| (*k, compress(Blob::from(v.clone()), s).unwrap().into_vec())).collect();
 			let src = MemSource::new("mem", stored, format, *s).with_tilejson(tj.clone());
 			let path = if *c == "dir" { let p = dir.join(format!("o{i}")); let _ = std::fs::remove_dir_all(&p); std::fs::create_dir_all(&p)?; p } else { dir.join(format!("o{i}.{c}")) };
-			let desc = format!("convert set={i} tiles={} {}->{:?} force={force} container={c}", tiles.len(), cname(s), d.as_ref().map(cname));
+			let desc = format!("convert set={i} tiles={} format={format:?} {}->{:?} force={force} container={c}", tiles.len(), cname(s), d.as_ref().map(cname));
 			let cp = TilesConverterParameters::new(d, None, force, false, false);
 			let pstr = path.to_str().unwrap().to_string();
 			let w = guarded(|| rt.block_on(convert_tiles_container(Box::new(src), cp, &pstr)));
